@@ -150,6 +150,15 @@ def translate_all(ctx):
                 lean_emit.emit_builder(T, "Rspirv.Generated.Builder", f"{GEN}/Builder.lean", "from rspirv/dr/build/autogen_*.rs")
             except TranslateError as e:
                 fails["builder"] = e
+    from translate import operand_reflect
+    attempt("operand_reflect", lambda: operand_reflect.parse(read(f"{REPO}/rspirv/dr/autogen_operand.rs")))
+    if all(k in T for k in ("operand_reflect", "operand_enum", "header", "core")):
+        try:
+            lean_emit.emit_reflect(T, "Rspirv.Generated.Reflect", f"{GEN}/Reflect.lean", "from rspirv/dr/autogen_operand.rs")
+        except TranslateError as e:
+            fails["operand_reflect"] = e
+        except (KeyError, StopIteration) as e:
+            fails["operand_reflect"] = TranslateError("rspirv/dr/autogen_operand.rs", "name resolution", f"unknown name {e}")
     ctx.data["T"] = T
     ctx.data["translate_fails"] = fails
     if "header" in T:
